@@ -164,6 +164,7 @@ func cmdCheck(args []string) int {
 	unrefined := map[string]int{}
 	notesSeen := map[string]bool{}
 	rng := rand.New(rand.NewSource(seed))
+	sampleSeed = uint64(seed)
 	var samples []interface{}
 
 	ss := borrowSolvers()
@@ -190,7 +191,9 @@ func cmdCheck(args []string) int {
 		for _, f := range r.Encoded {
 			encoded[f] = true
 		}
-		if r.Aborted {
+		if r.TimedOut {
+			inconclusive = append(inconclusive, fmt.Sprintf("%s: time budget for the exploration exhausted after %d paths (unexplored paths remain)", r.Name, r.Paths))
+		} else if r.Aborted {
 			inconclusive = append(inconclusive, r.Name+": path budget exhausted")
 		}
 		if r.KeptUnk > 0 {
@@ -233,6 +236,8 @@ func cmdCheck(args []string) int {
 			}
 		}
 		okLeaves := []*Leaf{}
+		panicSearches := map[string]int{}
+		panicT0 := time.Now()
 		for _, lf := range r.Leaves {
 			for _, n := range lf.Notes {
 				if !notesSeen[n] {
@@ -247,8 +252,14 @@ func cmdCheck(args []string) int {
 			case "panic":
 				// an uncaught panic in the code under test: candidate violation of "never a panic"
 				names, nts := leafNondets(lf)
-				mr := solveModel(ss, lf.PC, names, nts, nil, 20000, true)
 				nOblig++
+				panicSearches[lf.Msg]++
+				if panicSearches[lf.Msg] > 6 || time.Since(panicT0) > 5*time.Minute {
+					// enough model searches for this panic site (or for this harness): the rest are counted
+					inconclusive = append(inconclusive, fmt.Sprintf("%s: panic path %s (%s): not searched for a model (budget)", r.Name, lf.PathID, lf.Msg))
+					continue
+				}
+				mr := solveModelB(ss, lf.PC, names, nts, nil, 10000, true, time.Now().Add(60*time.Second), 12)
 				switch mr.Status {
 				case "sat":
 					o := &Oblig{Harness: r.Name, Label: "no uncaught panic: " + lf.Msg, PathID: lf.PathID, Status: "violated-candidate", Model: mr.Model, Choices: lf.Choices, Ambient: lf.Ambient}
@@ -268,6 +279,9 @@ func cmdCheck(args []string) int {
 		maxW := 12
 		if tier == 1 {
 			maxW = 60
+		}
+		if v := os.Getenv("GOSMT_WITNESSES"); v != "" {
+			maxW = atoiOr(v, maxW)
 		}
 		rng.Shuffle(len(okLeaves), func(i, j int) { okLeaves[i], okLeaves[j] = okLeaves[j], okLeaves[i] })
 		// half of the sample: the leaves with the smallest path conditions (cheap, stable); the rest random
@@ -316,67 +330,114 @@ func cmdCheck(args []string) int {
 		}
 	}
 
+	detInconclusive := map[string][]string{}
 	// relational determinism obligations (verifDeterministic): leaves of one harness that made the
 	// same nondetChoice decisions differ only in schedule choices (map order, capacity); whenever two
 	// of them can be reached by the same inputs their values must be equal.
 	for _, r := range results {
-		groups := map[string][]*Leaf{}
+		// Pairs are taken along the decision tree. Two leaves reachable by the same inputs run identically
+		// up to the first schedule decision where they differ. At such a node the leaves below child 0
+		// that take option 0 at every later schedule decision ("canonical") partition the inputs reaching
+		// the node, and so do the canonical leaves below any other child; comparing every canonical leaf
+		// of child j>0 with every canonical leaf of child 0 (same inputs => same value) at every schedule
+		// node gives, by induction over the tree, that all schedules agree for every input.
+		canonAfter := func(lf *Leaf, i int) bool {
+			for k := i + 1; k < len(lf.Trail); k++ {
+				if k < len(lf.TrailAmb) && lf.TrailAmb[k] && lf.Trail[k] != 0 {
+					return false
+				}
+			}
+			return true
+		}
+		prefixKey := func(lf *Leaf, i int) string {
+			var sb strings.Builder
+			for k := 0; k < i; k++ {
+				fmt.Fprintf(&sb, "%d.", lf.Trail[k])
+			}
+			return sb.String()
+		}
+		zeroSide := map[string][]*Leaf{}
+		var detLeaves []*Leaf
 		for _, lf := range r.Leaves {
 			if lf.Outcome != "ok" || len(lf.DetObs) == 0 {
 				continue
 			}
-			var ks []string
-			for k, c := range lf.Choices {
-				ks = append(ks, fmt.Sprintf("%s=%d", k, c))
-			}
-			sort.Strings(ks)
-			groups[strings.Join(ks, ",")] = append(groups[strings.Join(ks, ",")], lf)
-		}
-		var gkeys []string
-		for k := range groups {
-			gkeys = append(gkeys, k)
-		}
-		sort.Strings(gkeys)
-		var pending, jobs []detPending
-		for _, gk := range gkeys {
-			ls := groups[gk]
-			sort.Slice(ls, func(i, j int) bool { return ls[i].PathID < ls[j].PathID })
-			for i := 0; i < len(ls); i++ {
-				for j := i + 1; j < len(ls); j++ {
-					// star comparison: every leaf against the first and the last leaf of its group
-					if len(ls) > 8 && i != 0 && j != len(ls)-1 {
-						continue
-					}
-					a, b := ls[i], ls[j]
-					n := len(a.DetObs)
-					if len(b.DetObs) < n {
-						n = len(b.DetObs)
-					}
-					var diffs []*Term
-					ma, mb := map[*Term]*Term{}, map[*Term]*Term{}
-					for k := 0; k < n; k++ {
-						if a.DetObs[k].Label != b.DetObs[k].Label {
-							continue
-						}
-						diffs = append(diffs, mkNot(mkEq(renameFresh(a.DetObs[k].Val, "@a", ma), renameFresh(b.DetObs[k].Val, "@b", mb))))
-					}
-					differ := mkOr(diffs...)
-					nOblig++
-					if differ.IsFalse() {
-						nDischarged++
-						nFolded++
-						continue
-					}
-					var asserts []*Term
-					for _, c := range a.PC {
-						asserts = append(asserts, renameFresh(c, "@a", ma))
-					}
-					for _, c := range b.PC {
-						asserts = append(asserts, renameFresh(c, "@b", mb))
-					}
-					asserts = append(asserts, differ)
-					jobs = append(jobs, detPending{a: a, b: b, asserts: asserts, size: len(asserts)})
+			detLeaves = append(detLeaves, lf)
+			for i := range lf.Trail {
+				if i < len(lf.TrailAmb) && lf.TrailAmb[i] && lf.Trail[i] == 0 && canonAfter(lf, i) {
+					k := prefixKey(lf, i)
+					zeroSide[k] = append(zeroSide[k], lf)
 				}
+			}
+		}
+		sort.Slice(detLeaves, func(i, j int) bool { return detLeaves[i].PathID < detLeaves[j].PathID })
+		litSet := map[*Leaf]map[int]bool{}
+		litsOf := func(lf *Leaf) map[int]bool {
+			if m, ok := litSet[lf]; ok {
+				return m
+			}
+			m := map[int]bool{}
+			for _, c := range lf.PC {
+				m[c.id] = true
+			}
+			litSet[lf] = m
+			return m
+		}
+		var pending, jobs []detPending
+		for _, b := range detLeaves {
+			last := -1
+			for i := range b.Trail {
+				if i < len(b.TrailAmb) && b.TrailAmb[i] && b.Trail[i] != 0 {
+					last = i
+				}
+			}
+			if last < 0 {
+				continue // the canonical schedule itself
+			}
+			bl := litsOf(b)
+			for _, a := range zeroSide[prefixKey(b, last)] {
+				nOblig++
+				// complementary literals: no input reaches both
+				clash := false
+				for _, c := range a.PC {
+					if bl[mkNot(c).id] && renameFresh(c, "@t", map[*Term]*Term{}) == c {
+						// (a literal over inputs only: witnesses of the encoding are per path)
+						clash = true
+						break
+					}
+				}
+				if clash {
+					nDischarged++
+					nFolded++
+					continue
+				}
+				n := len(a.DetObs)
+				if len(b.DetObs) < n {
+					n = len(b.DetObs)
+				}
+				var diffs []*Term
+				ma, mb := map[*Term]*Term{}, map[*Term]*Term{}
+				for k := 0; k < n; k++ {
+					if a.DetObs[k].Label != b.DetObs[k].Label {
+						continue
+					}
+					diffs = append(diffs, mkNot(mkEq(renameFresh(a.DetObs[k].Val, "@a", ma), renameFresh(b.DetObs[k].Val, "@b", mb))))
+				}
+				differ := mkOr(diffs...)
+				if differ.IsFalse() {
+					nDischarged++
+					nFolded++
+					continue
+				}
+				var asserts []*Term
+				for _, c := range a.PC {
+					asserts = append(asserts, renameFresh(c, "@a", ma))
+				}
+				for _, c := range b.PC {
+					asserts = append(asserts, renameFresh(c, "@b", mb))
+				}
+				asserts = append(asserts, differ)
+				jobs = append(jobs, detPending{a: a, b: b, asserts: asserts, size: len(asserts)})
 			}
 		}
 		// decide the pair queries in parallel
@@ -408,11 +469,14 @@ func cmdCheck(args []string) int {
 		// undecided / satisfiable pairs: search counterexamples for the smallest ones first
 		sort.SliceStable(pending, func(i, j int) bool { return pending[i].size < pending[j].size })
 		label := "same inputs, different schedule, same bytes"
-		for n, pd := range pending {
-			if n >= 3 {
+		found, tried := 0, 0
+		for _, pd := range pending {
+			// model search for up to 10 pairs, until 3 candidates have been found
+			if found >= 3 || tried >= 10 {
 				unrefined[r.Name+"/"+label]++
 				continue
 			}
+			tried++
 			nd := map[string]*Term{}
 			for k, t := range pd.a.Nondets {
 				nd[k] = t
@@ -426,12 +490,13 @@ func cmdCheck(args []string) int {
 			case "unsat":
 				nDischarged++
 			case "sat":
+				found++
 				o := &Oblig{Harness: r.Name, Label: label, PathID: pd.a.PathID + " vs " + pd.b.PathID, Status: "violated-candidate", Model: mr.Model, Choices: pd.a.Choices, Ambient: true, Finding: detFinding[r.Name]}
 				c := &candidate{ob: o, kind: "determinism", finding: detFinding[r.Name]}
 				c.vec = vectorFromModel(r.Name, fmt.Sprintf("cand-%d", len(cands)), mr.Model, pd.a.Choices, tier)
 				cands = append(cands, c)
 			default:
-				inconclusive = append(inconclusive, fmt.Sprintf("%s: schedules %s and %s: %s", r.Name, pd.a.PathID, pd.b.PathID, mr.Reason))
+				detInconclusive[r.Name] = append(detInconclusive[r.Name], fmt.Sprintf("%s: schedules %s and %s: %s", r.Name, pd.a.PathID, pd.b.PathID, mr.Reason))
 			}
 		}
 	}
@@ -449,7 +514,7 @@ func cmdCheck(args []string) int {
 			if perSite[k] == 1 {
 				perSite[k] += unrefined[c.ob.Harness+"/"+c.ob.Label]
 			}
-			if perSite[k]-unrefined[c.ob.Harness+"/"+c.ob.Label] <= 12 {
+			if perSite[k]-unrefined[c.ob.Harness+"/"+c.ob.Label] <= 30 {
 				kept = append(kept, c)
 			}
 		}
@@ -545,7 +610,27 @@ func cmdCheck(args []string) int {
 			if rs := runs[c.vec.ID]; len(rs) > 0 && rs[0].AssumeOff {
 				why = "counterexample violates a harness assumption natively (stub too weak)"
 			}
-			inconclusive = append(inconclusive, fmt.Sprintf("%s/%s@%s: %s; inputs=%v", c.ob.Harness, c.ob.Label, c.ob.PathID, why, readableModel(c.ob.Model)))
+			msg := fmt.Sprintf("%s/%s@%s: %s; inputs=%v", c.ob.Harness, c.ob.Label, c.ob.PathID, why, readableModel(c.ob.Model))
+			if c.kind == "determinism" {
+				detInconclusive[c.ob.Harness] = append(detInconclusive[c.ob.Harness], msg)
+			} else {
+				inconclusive = append(inconclusive, msg)
+			}
+		}
+	}
+	// undecided schedule pairs of a harness whose determinism obligation is covered by a listed open
+	// finding that reproduced on this run belong to that finding (its scope is the harness)
+	{
+		var hs []string
+		for h := range detInconclusive {
+			hs = append(hs, h)
+		}
+		sort.Strings(hs)
+		for _, h := range hs {
+			if fid, ok := detFinding[h]; ok && knownHits[fid] {
+				continue
+			}
+			inconclusive = append(inconclusive, detInconclusive[h]...)
 		}
 	}
 	for site, n := range unrefined {
